@@ -1,5 +1,6 @@
 """C20 Pattern forms."""
 import ast
+import re
 
 from ..astx import (calls_in, dotted, norm, src, iter_nodes, assigned_targets, assigned_names,
                     const_value, is_const, parent_chain)
@@ -110,7 +111,25 @@ def run(R):
         rets = returns(f)
         last = [r for r in rets if is_name(r.ast.value, rp)]
         others = [r for r in rets if not is_name(r.ast.value, rp)]
-        c.check(len(last) >= 1 and all(isinstance(r.ast.value, ast.Call) and dotted(r.ast.value.func) == 're.compile' for r in others), f, last[0].ast if last else None,
+        # a conversion remembered on the object (`return self._cache[key]`): whether the remembered pattern is the one THIS call would
+        # have built depends on what the key captures and on what was stored under it -- a question about values, not decided here
+        for r_ in others:
+            v_ = r_.ast.value
+            tx_ = ctext(v_, f, stale_ok=True) if v_ is not None else ''
+            if v_ is not None and not (isinstance(v_, ast.Call) and dotted(v_.func) == 're.compile') and \
+                    (re.search(r'\bself\.\w+\[', tx_) or re.search(r'\bself\.\w+\.(get|setdefault|pop)\(', tx_)):
+                # ... except for what the key leaves out: the conversion is a function of the pattern text AND its flags, so a key without
+                # the flags hands the first pattern's conversion to every later pattern with the same text
+                km_ = re.search(r'\bself\.\w+(?:\[(.*)\]|\.(?:get|setdefault|pop)\((.*)\))\s*$', tx_)
+                key_ = (km_.group(1) or km_.group(2) or '') if km_ else None
+                if key_ is not None and ('%s.pattern' % rp) in key_ and ('%s.flags' % rp) not in key_ and rp not in re.split(r'\W+', key_.replace('%s.pattern' % rp, '')):
+                    c.bad(f, r_.ast, 'a remembered conversion is looked up by the pattern text alone: a second compiled pattern with the same text and different '
+                          'flags (re.IGNORECASE, re.DOTALL, ...) is given the first one\'s conversion and means something else', witness='key: ' + key_, kind='ast', tag='passthrough')
+                    continue
+                raise AnalysisError('_coerce_expect_re: a converted pattern is returned from a store on the object (%s): cannot be decided' % tx_[:60])
+        remembered = any(r.ast.value is not None and not isinstance(r.ast.value, ast.Call) and re.search(r'\bself\.\w+(\[|\.(get|setdefault|pop)\()', ctext(r.ast.value, f, stale_ok=True))
+                         for r in others)
+        c.check(remembered or (len(last) >= 1 and all(isinstance(r.ast.value, ast.Call) and dotted(r.ast.value.func) == 're.compile' for r in others)), f, last[0].ast if last else None,
                 'a pattern already of the right type is returned unchanged (every other return is the re-compiled pattern)', kind='ast', tag='passthrough')
         pvn = [n2.targets[0].id for n2 in iter_nodes(f.node) if isinstance(n2, ast.Assign) and isinstance(n2.targets[0], ast.Name) and norm(n2.value) == '%s.pattern' % rp]
         pv_ = pvn[0] if pvn else 'p'
@@ -142,7 +161,8 @@ def run(R):
                         outs.add(norm(v_)[:40] if v_ is not None else 'None')
                 table[(enc_none, is_bytes)] = sorted(outs)
         want = {(True, True): ['unchanged'], (True, False): ['encode'], (False, True): ['decode'], (False, False): ['unchanged']}
-        c.check(table == want, f, ks[0], 'str pattern + bytes mode -> bytes pattern; bytes pattern + text mode -> str pattern; a pattern of the right type is returned unchanged',
+        # (with a remembered conversion -- reported above -- the returns are not the conversions, and this table says nothing)
+        c.check(remembered or table == want, f, ks[0], 'str pattern + bytes mode -> bytes pattern; bytes pattern + text mode -> str pattern; a pattern of the right type is returned unchanged',
                 witness='(bytes mode, bytes pattern) -> %s' % sorted(table.items()), kind='path', tag='directions')
     with R.clause('D4', 'ORDER', floor=6, desc='validation completes before the Expecter exists; validators never touch the stream') as c:
         check_order(c, repo)
